@@ -451,7 +451,6 @@ class VectorizedOptimizer(Generic[_S]):
       return new_state, new_best_results, new_seed
 
     init_seed, loop_seed = jax.random.split(seed)
-    # TODO: Consider initializing with prior features/rewards.
     init_best_results = VectorizedStrategyResults(
         rewards=-jnp.inf * jnp.ones([count]),
         features=VectorizedOptimizerInput(
@@ -473,6 +472,12 @@ class VectorizedOptimizer(Generic[_S]):
             ),
         ),
     )
+    if prior_features is not None:
+      # Seed the best results with the scored prior features, so that the
+      # returned candidates are never worse than the best prior.
+      init_best_results = self._update_best_results(
+          init_best_results, count, prior_features, prior_rewards
+      )
     init_args = (
         self.strategy.init_state(
             init_seed,
